@@ -17,6 +17,7 @@ func init() {
 		Title: "Permanode attributes and deletions follow the documented claim semantics",
 		Explanation: "Decided (structural necessary conditions, over every claim fold = every function that compares the Type field of a camtypes.Claim with the schema set/add/del-attribute constants, found by type, not by name): " +
 			"A-fold (i) each fold handles all three claim types and its del-attribute case distinguishes the empty value (delete all) from a specific value; " +
+			"(iv, #del-removes-all) in each fold, the arm of the del-attribute case run for a del WITH a value (the blocks dominated by the not-empty edge of the emptiness test; the whole case when that is no separate region) removes EVERY element equal to the claim's Value from the list that leaves the arm (slice values defined in the arm that reach a phi outside it, a map entry, a variable or a return; a module helper returning the list is followed into its body). Accepted, decided per header-to-header path of the loop with the counter's next value computed as counter + constant: filter loops (append(kept, e) or list[w] = e; w++ with result list[:w]) whose read counter advances by exactly one on every path, that keep an element only on an edge where it is known != Value and drop it only where it is known == Value, start at the first element with an empty kept list / write counter 0, are bounded by len(list) and are left only at that bound; in-place removal loops (slices.Delete(l,i,i+1), append(l[:i], l[i+1:]...), copy-down + re-slice at the compared index) in which the path that removed the element at index i re-enters the header with the counter still at i (i-- before i++, or continue past the increment) while keeping paths advance by one, or which count down; slices.DeleteFunc with an `e == Value` predicate. Violations: the counter advances to i+1 after a removal at i (the element that slid into slot i is never compared), the loop is left on the path where an equal element was found, an element known equal is kept / one known different is dropped, a single element is removed outside a loop carrying the list, the valued arm empties the list. A fold whose del arm produces no list at all (PermanodeHasAttrValue's boolean, pnCamliContent's single ref) is exempt. Anything else in the arm is undecided. " +
 			"(ii) each fold that has a query time available skips (continue/break) every claim whose Date is After that time on every path to the type switch, except paths on which the time is known zero; a fold that applies one claim to a cache and has no time input is accepted only because every function that hands out that cache together with a time parameter returns it solely under {time is zero, no claims, or the LAST claim is not After the time}, and the cache fields are read by no other function; " +
 			"(iii) the claims folded exclude claims that were themselves deleted: an IsDeleted(claim.BlobRef) skip lies on every path to the switch, or every source the folded claims are traced back to (through parameters to all static callers, struct fields to all their stores, call results to the callee's returns) is the result of an AppendClaims method or a filtering append guarded by such a skip; every AppendClaims method appends a claim only behind an IsDeleted(claim.BlobRef) skip. A source that is the raw PermanodeMeta.Claims list is a violation (defect F13, see known_findings.json). " +
 			"A-deleted: each IsDeleted implementation recurses on the DELETER of each deletion record selected by its argument and answers true only where that recursive call returned false (a deleted delete claim does not count); Index.IsDeleted returns only such a core applied to its own argument. " +
@@ -28,17 +29,17 @@ func init() {
 			"(holder-store) every store of a cache map into a field of the cache type or into a map of caches stores a map made by make (or nil), or shares another holder's map only on paths where the receiving map of caches is known empty (a len == 0 edge): the single-signer sharing of pm.attr. " +
 			"(apply-once) where one claim is applied to a field-held cache map and to an entry of a map of caches, the two applications cannot both run unless that map is known to hold at least two entries. " +
 			"(cache-map-flow) no cache map is returned by an exported function, stored in a package variable, shallow-copied with maps.Clone, sent on a channel; conversion to an interface (other than as a fmt/log operand), dynamic calls and code without a body are undecided. " +
-			"NOT decided: the folded values themselves for any concrete history (e.g. duplicate handling of add-attribute differs between Describe and the corpus and is not compared), that Claims really is sorted (only that sort/Less are called), URL-escaping of values, signer filtering, equality of answers between index rows and corpus for any concrete input, anything about future-dated claims when the query time is zero. For A-own: that a fresh slice stored into a cache holds the right elements (only that its storage is unshared); that the first signer's entry really is replaced by the copy on every path before a second signer's entry is added (only what is stored, and where sharing is allowed, is checked); aliasing through reflect/unsafe; a field re-assigned between two reads that have the same access path; what callers outside the module do with values they were given.",
+			"NOT decided: the folded values themselves for any concrete history (of the fold arms only the valued del is checked element by element; that the list being filtered is the accumulator's previous value, and set/add, are not) (e.g. duplicate handling of add-attribute differs between Describe and the corpus and is not compared), that Claims really is sorted (only that sort/Less are called), URL-escaping of values, signer filtering, equality of answers between index rows and corpus for any concrete input, anything about future-dated claims when the query time is zero. For A-own: that a fresh slice stored into a cache holds the right elements (only that its storage is unshared); that the first signer's entry really is replaced by the copy on every path before a second signer's entry is added (only what is stored, and where sharing is allowed, is checked); aliasing through reflect/unsafe; a field re-assigned between two reads that have the same access path; what callers outside the module do with values they were given.",
 		RuleDocs: map[string]string{
-			"A-fold":    "sibling rule over every function comparing camtypes.Claim.Type with the set/add/del-attribute constants: (i) exhaustive + del distinguishes empty value, (ii) bounded by the query time (or cache handed out only when valid for the time), (iii) deleted claims excluded in the fold or at every traced claim source; AppendClaims methods append only behind an IsDeleted skip",
+			"A-fold":    "sibling rule over every function comparing camtypes.Claim.Type with the set/add/del-attribute constants: (i) exhaustive + del distinguishes empty value, (iv #del-removes-all) the valued-del arm's filter / in-place removal loop / slices.DeleteFunc examines every element and removes every one equal to the claim's value (after a removal at index i the loop counter must still be i), (ii) bounded by the query time (or cache handed out only when valid for the time), (iii) deleted claims excluded in the fold or at every traced claim source; AppendClaims methods append only behind an IsDeleted skip",
 			"A-deleted": "every IsDeleted core recurses on the deleter selected by its argument and returns true only on the recursive call's false edge; the Index.IsDeleted dispatcher returns a core applied to its own argument",
 			"A-own":     "ownership of cache storage, given that entries are updated in place (enumerated from SSA): every m[k]=x on a cache map stores fresh storage or the same entry's own previous slice, never (a re-slice/Clip/conversion of) an entry of another cache or key; slices read from a cache are only read or stored back under their own key, never returned by exported functions, kept in fields/globals/other maps or written elsewhere; a cache map is stored into a second holder only fresh or while the map of caches is empty; one claim is not applied to a field-held map and a map-of-caches entry unless >= 2 entries are known; cache maps do not leave the package's unexported code",
 			"A-order":   "the attribute cache is updated incrementally only when the new claim is last in date order; otherwise (and after bulk load) it is rebuilt from the sorted claim list; every append to PermanodeMeta.Claims is followed by that fix-up unless building",
 		},
 		Run:       runC07,
 		DesignRef: "DESIGN.md §4 C07",
-		Technique: "static analysis: sibling comparison of all claim folds found by type; CFG reachability with guard edges removed (time bound, deleted-claim skip, cache validity); inter-procedural back-tracing of the folded claims to their sources through parameters, struct-field stores and call results; dominance facts on recursive IsDeleted calls; for A-own a module-wide forward value-flow of cache maps (by type, through conversions, variables, fields, parameters, results), backward slicing of every stored entry value to its allocation sites and forward escape analysis of every entry read, both inter-procedural with callee bodies (including instantiated stdlib generics) followed and summarised",
-		LevelText: "Decides structural necessary conditions only: every attribute-claim fold in the tree treats set/add/del alike in shape, is bounded by the query time, and excludes deleted claims either itself or at its claim sources; the attribute cache is only handed out when no claim is newer than the query time and is rebuilt when claims arrive out of date order; deletion tests recurse on the deleter; the storage of a cached attribute slice has exactly one owner (one map, one key), so the in-place update of one signer's or the all-signers cache cannot change another cache or a value already handed to a caller. It does not decide the attribute values for any concrete claim history, nor equality of the index-row and corpus answers.",
+		Technique: "static analysis: sibling comparison of all claim folds found by type; for the valued del arm, enumeration of every acyclic header-to-header and header-to-exit path of the removal loop with phis resolved along the path, loop counters and slice bounds evaluated as counter + constant, branch facts `element ==/!= claim.Value` collected per path, and classification of the loop-carried list's next value (unchanged / append of the compared element / removal at the compared index); CFG reachability with guard edges removed (time bound, deleted-claim skip, cache validity); inter-procedural back-tracing of the folded claims to their sources through parameters, struct-field stores and call results; dominance facts on recursive IsDeleted calls; for A-own a module-wide forward value-flow of cache maps (by type, through conversions, variables, fields, parameters, results), backward slicing of every stored entry value to its allocation sites and forward escape analysis of every entry read, both inter-procedural with callee bodies (including instantiated stdlib generics) followed and summarised",
+		LevelText: "Decides structural necessary conditions only: every attribute-claim fold in the tree treats set/add/del alike in shape, removes in its del-with-value arm every element equal to the claim's value (each element is compared exactly once, also the one that slides into a slot just vacated), is bounded by the query time, and excludes deleted claims either itself or at its claim sources; the attribute cache is only handed out when no claim is newer than the query time and is rebuilt when claims arrive out of date order; deletion tests recurse on the deleter; the storage of a cached attribute slice has exactly one owner (one map, one key), so the in-place update of one signer's or the all-signers cache cannot change another cache or a value already handed to a caller. It does not decide the attribute values for any concrete claim history, nor equality of the index-row and corpus answers.",
 	})
 }
 
@@ -416,14 +417,15 @@ func c07RuleFold(cx *c07Ctx, r *Reporter, folds []*c07Fold) {
 		}
 		site = p.Pos(c07FirstPos(f))
 		c07FoldTypes(cx, r, f, site)
+		c07FoldDelAll(cx, r, f, site)
 		c07FoldTime(cx, r, f, site)
 		c07FoldDeleted(cx, r, f, site)
 	}
 	// today: claimsIntfAttrValue, attrValues.cacheAttrClaim, AppendPermanodeAttrValues,
 	// PermanodeHasAttrValue, pnCamliContent (pkg/index) and DescribeRequest.populatePermanodeFields
-	// (pkg/search): 6 folds x 3 clauses, plus per-source obligations, the cache consumer and readers,
+	// (pkg/search): 6 folds x 4 clauses, plus per-source obligations, the cache consumer and readers,
 	// and 2 AppendClaims methods.
-	r.Floor("A-fold", 24)
+	r.Floor("A-fold", 30)
 }
 
 func c07FirstPos(f *c07Fold) token.Pos {
@@ -3328,4 +3330,1189 @@ func (w *c07SrcWalk) call(c *ssa.Call, idx int, frames []c07Frame, viaCaller boo
 			w.walk(ri.Results[idx], nf, viaCaller, depth+1)
 		}
 	}
+}
+
+// ---------------------------------------------------------------------------
+// A-fold clause (iv) "#del-removes-all": in the arm of the del-attribute case
+// that handles a del WITH a value, the list that reaches the fold's
+// accumulator has had EVERY element equal to the claim's Value removed.
+//
+// Decided on SSA, per fold:
+//   * the arm is the set of blocks dominated by the target of the "Value is not
+//     empty" edge of the emptiness test in the del case (the whole del case when
+//     that edge cannot be located inside it);
+//   * the lists the arm produces are the slice-typed values defined in the arm
+//     that reach a phi outside it, a map update, a store or a return;
+//   * each such list is the result of slices.DeleteFunc with an `== Value`
+//     predicate, or of a loop whose every header-to-header path is classified
+//     (filter by append, filter by in-place compaction, or in-place removal at
+//     the compared position) with the loop counter's next value computed per
+//     path as counter + constant.
+
+type c07RmLoop struct {
+	head   *ssa.BasicBlock
+	blocks map[*ssa.BasicBlock]bool
+}
+
+type c07RmPath struct {
+	blocks []*ssa.BasicBlock // blocks[0] is the loop header
+	end    *ssa.BasicBlock   // the header again (back path) or the first block outside the loop
+	back   bool
+}
+
+type c07ElemCmp struct {
+	list  ssa.Value // the list the element was loaded from
+	elem  ssa.Value // the loaded element
+	base  ssa.Value // index = base + off
+	off   int64
+	equal bool // the path runs on the edge where elem == claim.Value
+}
+
+type c07DelArm struct {
+	cx      *c07Ctx
+	fn      *ssa.Function
+	isValue func(ssa.Value) bool // v is the Value of the claim being folded
+	isClaim func(ssa.Value) bool // v is the claim being folded
+	depth   int                  // helper functions followed so far
+	precise bool                 // the arm is exactly the code run for a del WITH a value
+	region  map[*ssa.BasicBlock]bool
+	loops   []*c07RmLoop
+	viol    []string
+	undec   []string
+	oks     []string
+}
+
+func (a *c07DelArm) violf(format string, args ...any) {
+	a.viol = append(a.viol, fmt.Sprintf(format, args...))
+}
+func (a *c07DelArm) undecf(format string, args ...any) {
+	a.undec = append(a.undec, fmt.Sprintf(format, args...))
+}
+
+func c07IsSliceT(t types.Type) bool {
+	_, ok := t.Underlying().(*types.Slice)
+	return ok
+}
+
+func c07IsSlicesFunc(f *ssa.Function, name string) bool {
+	if f == nil {
+		return false
+	}
+	return funcIs(f.Origin(), "slices", "", name) || funcIs(f, "slices", "", name)
+}
+
+// c07NonEmptyEdges: the If edges inside the del case taken when the claim's
+// Value is known NOT empty.
+func c07NonEmptyEdges(f *c07Fold, body *ssa.BasicBlock) []c07Edge {
+	isValue := func(v ssa.Value) bool {
+		h, ok := c07ClaimField(v, "Value")
+		return ok && h == f.handle
+	}
+	flip := map[token.Token]token.Token{token.LSS: token.GTR, token.GTR: token.LSS, token.LEQ: token.GEQ, token.GEQ: token.LEQ, token.EQL: token.EQL, token.NEQ: token.NEQ}
+	var out []c07Edge
+	for _, b := range f.fn.Blocks {
+		if !body.Dominates(b) {
+			continue
+		}
+		for _, in := range b.Instrs {
+			bo, ok := in.(*ssa.BinOp)
+			if !ok {
+				continue
+			}
+			// trueMeans: +1 the comparison is true when Value is empty, -1 when it is not empty
+			trueMeans := 0
+			for side, pair := range [][2]ssa.Value{{bo.X, bo.Y}, {bo.Y, bo.X}} {
+				op := bo.Op
+				if side == 1 {
+					op = flip[op]
+				}
+				if s, ok := ConstString(pair[1]); ok && s == "" && isValue(pair[0]) {
+					switch op {
+					case token.EQL, token.LEQ:
+						trueMeans = 1
+					case token.NEQ, token.GTR:
+						trueMeans = -1
+					}
+				}
+				if n, ok := ConstInt(pair[1]); ok {
+					c, isCall := pair[0].(*ssa.Call)
+					if !isCall || c07Builtin(&c.Call) != "len" || !isValue(c.Call.Args[0]) {
+						continue
+					}
+					switch {
+					case n == 0 && (op == token.EQL || op == token.LEQ), n == 1 && op == token.LSS:
+						trueMeans = 1
+					case n == 0 && (op == token.NEQ || op == token.GTR), n == 1 && op == token.GEQ:
+						trueMeans = -1
+					}
+				}
+			}
+			if trueMeans == 0 {
+				continue
+			}
+			for _, e := range c07IfEdges(f.fn, func(v ssa.Value) bool { return v == ssa.Value(bo) }) {
+				if trueMeans == 1 {
+					e = c07Other(e)
+				}
+				out = append(out, e)
+			}
+		}
+	}
+	return out
+}
+
+func c07FoldDelAll(cx *c07Ctx, r *Reporter, f *c07Fold, site string) {
+	if len(f.cmps["del"]) == 0 {
+		return // clause (i) reports the missing case
+	}
+	construct := f.key + "#del-removes-all"
+	a := &c07DelArm{cx: cx, fn: f.fn, region: map[*ssa.BasicBlock]bool{}, precise: true}
+	a.isValue = func(v ssa.Value) bool {
+		h, ok := c07ClaimField(v, "Value")
+		return ok && h == f.handle
+	}
+	a.isClaim = func(v ssa.Value) bool { return v == f.handle || originValue(v) == f.handle }
+	for _, cmp := range f.cmps["del"] {
+		body := c07TrueSucc(cmp)
+		if body == nil {
+			return // clause (i) reports it
+		}
+		var entries []*ssa.BasicBlock
+		for _, e := range c07NonEmptyEdges(f, body) {
+			if t := e.b.Succs[e.succ]; body.Dominates(t) {
+				entries = append(entries, t)
+			}
+		}
+		if len(entries) == 0 {
+			// no emptiness test (clause (i) reports that), or the valued arm is not a
+			// separate region of the del case: look at the whole case
+			entries = []*ssa.BasicBlock{body}
+			a.precise = false
+		}
+		for _, t := range entries {
+			for _, b := range f.fn.Blocks {
+				if t.Dominates(b) {
+					a.region[b] = true
+				}
+			}
+		}
+	}
+	a.findLoops()
+	outs := a.outputs()
+	if len(outs) == 0 {
+		if what := a.touchesList(); what != "" {
+			r.Undecided("A-fold", construct, site, fmt.Sprintf("(iv) the del-attribute-with-value arm of %s works on a list (%s) but no list it produces reaches a phi outside the arm, a map entry, a variable or a return; cannot tell what the arm computes", FuncKey(f.fn), what))
+			return
+		}
+		r.OKTable("A-fold", construct, site, fmt.Sprintf("(iv) not applicable: the del-attribute arm of %s produces no list (no slice value leaves it, no loop, no call or element store on a slice): a single-result fold that only records presence", FuncKey(f.fn)))
+		return
+	}
+	for _, o := range outs {
+		a.classify(o)
+	}
+	where := "the del-attribute-with-value arm"
+	if !a.precise {
+		where = "the del-attribute case (the valued arm is not a separate region)"
+	}
+	switch {
+	case len(a.viol) > 0:
+		r.Violation("A-fold", construct, site, fmt.Sprintf("(iv) %s of %s does not remove every occurrence of the claim's value: %s", where, FuncKey(f.fn), strings.Join(c07Uniq(append(a.viol, a.undec...)), "; ")))
+	case len(a.undec) > 0:
+		r.Undecided("A-fold", construct, site, fmt.Sprintf("(iv) %s of %s: %s", where, FuncKey(f.fn), strings.Join(c07Uniq(a.undec), "; ")))
+	case len(a.oks) == 0:
+		r.Undecided("A-fold", construct, site, fmt.Sprintf("(iv) %s of %s only empties the list; no code removing the one value was found", where, FuncKey(f.fn)))
+	default:
+		r.OK("A-fold", construct, site, fmt.Sprintf("(iv) %s removes every occurrence: %s", where, strings.Join(c07Uniq(a.oks), "; ")))
+	}
+}
+
+// findLoops: the natural loops whose header and latch lie in the arm.
+func (a *c07DelArm) findLoops() {
+	for _, h := range a.fn.Blocks {
+		if !a.region[h] {
+			continue
+		}
+		var l *c07RmLoop
+		for _, p := range h.Preds {
+			if !a.region[p] || !h.Dominates(p) {
+				continue
+			}
+			if l == nil {
+				l = &c07RmLoop{head: h, blocks: map[*ssa.BasicBlock]bool{h: true}}
+			}
+			work := []*ssa.BasicBlock{p}
+			for len(work) > 0 {
+				b := work[len(work)-1]
+				work = work[:len(work)-1]
+				if l.blocks[b] {
+					continue
+				}
+				l.blocks[b] = true
+				work = append(work, b.Preds...)
+			}
+		}
+		if l != nil {
+			a.loops = append(a.loops, l)
+		}
+	}
+}
+
+// loopOf: the outermost loop of the arm containing b.
+func (a *c07DelArm) loopOf(b *ssa.BasicBlock) *c07RmLoop {
+	var best *c07RmLoop
+	for _, l := range a.loops {
+		if l.blocks[b] && (best == nil || len(l.blocks) > len(best.blocks)) {
+			best = l
+		}
+	}
+	return best
+}
+
+func (a *c07DelArm) loopWithHead(h *ssa.BasicBlock) *c07RmLoop {
+	for _, l := range a.loops {
+		if l.head == h {
+			return l
+		}
+	}
+	return nil
+}
+
+func (a *c07DelArm) definedIn(v ssa.Value) bool {
+	in, ok := v.(ssa.Instruction)
+	return ok && in.Block() != nil && in.Parent() == a.fn && a.region[in.Block()]
+}
+
+// outputs: slice-typed values defined in the arm that leave it.
+func (a *c07DelArm) outputs() []ssa.Value {
+	var out []ssa.Value
+	seen := map[ssa.Value]bool{}
+	add := func(v ssa.Value) {
+		if v != nil && c07IsSliceT(v.Type()) && !seen[v] {
+			seen[v] = true
+			out = append(out, v)
+		}
+	}
+	for _, b := range a.fn.Blocks {
+		for _, in := range b.Instrs {
+			switch x := in.(type) {
+			case *ssa.Phi:
+				if a.region[b] {
+					continue
+				}
+				for k, p := range b.Preds {
+					if a.region[p] && a.definedIn(x.Edges[k]) {
+						add(x.Edges[k])
+					}
+				}
+			case *ssa.MapUpdate:
+				if a.region[b] {
+					add(x.Value)
+				}
+			case *ssa.Store:
+				if a.region[b] {
+					add(x.Val)
+				}
+			case *ssa.Return:
+				if a.region[b] {
+					for _, res := range x.Results {
+						if a.definedIn(res) {
+							add(res)
+						}
+					}
+				}
+			}
+		}
+	}
+	return out
+}
+
+// touchesList: does the arm work on a slice at all (used only when it has no
+// list output)?
+func (a *c07DelArm) touchesList() string {
+	if len(a.loops) > 0 {
+		return "it contains a loop"
+	}
+	for b := range a.region {
+		for _, in := range b.Instrs {
+			switch x := in.(type) {
+			case *ssa.Store:
+				if ia, ok := x.Addr.(*ssa.IndexAddr); ok && c07IsSliceT(ia.X.Type()) {
+					return "it stores into a slice element"
+				}
+			case ssa.CallInstruction:
+				cc := x.Common()
+				switch c07Builtin(cc) {
+				case "len", "cap", "delete", "print", "println":
+					continue
+				}
+				for _, arg := range cc.Args {
+					if c07IsSliceT(arg.Type()) {
+						return "it passes a slice to a call"
+					}
+				}
+				if v := x.Value(); v != nil && c07IsSliceT(v.Type()) {
+					return "a call returns a slice"
+				}
+			}
+		}
+	}
+	return ""
+}
+
+func c07EmptyList(v ssa.Value) bool {
+	switch x := v.(type) {
+	case *ssa.Const:
+		return x.Value == nil
+	case *ssa.Slice:
+		if x.High != nil {
+			n, ok := ConstInt(x.High)
+			return ok && n == 0
+		}
+	case *ssa.MakeSlice:
+		n, ok := ConstInt(x.Len)
+		return ok && n == 0
+	}
+	return false
+}
+
+func c07StripList(v ssa.Value) ssa.Value {
+	for i := 0; i < 8; i++ {
+		switch x := v.(type) {
+		case *ssa.ChangeType:
+			v = x.X
+			continue
+		case *ssa.Convert:
+			if c07IsSliceT(x.X.Type()) {
+				v = x.X
+				continue
+			}
+		}
+		break
+	}
+	return v
+}
+
+func (a *c07DelArm) classify(v ssa.Value) {
+	p := a.cx.p
+	v = c07StripList(v)
+	pos := v.Pos()
+	if c07EmptyList(v) {
+		if a.precise {
+			a.violf("at %s the arm for a del WITH a value makes the whole list empty, where only the values equal to the claim's value are to go", p.Pos(pos))
+		}
+		return
+	}
+	if in, ok := v.(ssa.Instruction); ok && a.definedIn(v) {
+		if l := a.loopOf(in.Block()); l != nil {
+			a.loop(l, v, nil)
+			return
+		}
+	}
+	switch x := v.(type) {
+	case *ssa.Slice:
+		if x.High != nil && x.Max == nil && (x.Low == nil || c07IsConstInt(x.Low, 0)) {
+			if ph, ok := c07StripInt(x.High).(*ssa.Phi); ok {
+				if l := a.loopWithHead(ph.Block()); l != nil {
+					a.loop(l, nil, x)
+					return
+				}
+			}
+		}
+	case *ssa.Call:
+		callee := x.Call.StaticCallee()
+		if c07IsSlicesFunc(callee, "DeleteFunc") && len(x.Call.Args) == 2 {
+			if why := a.predIsEqValue(x.Call.Args[1]); why != "" {
+				a.undecf("slices.DeleteFunc at %s: %s", p.Pos(x.Pos()), why)
+				return
+			}
+			a.oks = append(a.oks, "slices.DeleteFunc with an `element == claim.Value` predicate (the library visits every element once)")
+			return
+		}
+		if callee != nil && callee.Blocks != nil && InModule(callee) && a.helper(x, callee) {
+			return
+		}
+	}
+	if in, ok := v.(ssa.Instruction); ok && in.Block() != nil {
+		// one element taken out by code that is not inside a loop carrying the list
+		// (an index search followed by a splice, or a splice followed by break)
+		here := &c07RmPath{blocks: []*ssa.BasicBlock{in.Block()}}
+		if _, _, rhow, ok := c07RemovalAt(here, v, func(ssa.Value) bool { return true }); ok {
+			a.violf("at %s a single element is removed (%s) by code that is not inside a loop carrying the list round: at most one occurrence of the claim's value goes, further occurrences stay", p.Pos(pos), rhow)
+			return
+		}
+	}
+	a.undecf("the list produced at %s (%s) is not the result of a recognised way of removing a value (filter loop, in-place removal loop, slices.DeleteFunc)", p.Pos(pos), v.String())
+}
+
+// helper follows a call to a module function that returns the list: the
+// callee's body is judged like an arm, with the claim's Value (or the claim)
+// identified by the parameters that receive it. Reports whether it decided.
+func (a *c07DelArm) helper(c *ssa.Call, callee *ssa.Function) bool {
+	p := a.cx.p
+	if a.depth >= 2 || len(callee.Params) != len(c.Call.Args) || c.Call.IsInvoke() {
+		return false
+	}
+	valueP, claimP := map[ssa.Value]bool{}, map[ssa.Value]bool{}
+	for k, arg := range c.Call.Args {
+		switch {
+		case a.isValue(arg):
+			valueP[callee.Params[k]] = true
+		case a.isClaim(arg):
+			claimP[callee.Params[k]] = true
+		}
+	}
+	if len(valueP)+len(claimP) == 0 {
+		a.undecf("the list comes from %s, called at %s, which receives neither the claim nor its Value", FuncKey(callee), p.Pos(c.Pos()))
+		return true
+	}
+	sub := &c07DelArm{cx: a.cx, fn: callee, depth: a.depth + 1, region: map[*ssa.BasicBlock]bool{}}
+	sub.isValue = func(v ssa.Value) bool {
+		if valueP[v] || valueP[originValue(v)] {
+			return true
+		}
+		h, ok := c07ClaimField(v, "Value")
+		return ok && claimP[h]
+	}
+	sub.isClaim = func(v ssa.Value) bool { return claimP[v] || claimP[originValue(v)] }
+	for _, b := range callee.Blocks {
+		sub.region[b] = true
+	}
+	sub.findLoops()
+	n := 0
+	for _, ri := range Returns(callee) {
+		for _, res := range ri.Results {
+			if !c07IsSliceT(res.Type()) {
+				continue
+			}
+			n++
+			if _, isParam := c07StripList(res).(*ssa.Parameter); isParam {
+				continue // a path that hands the list back unchanged (e.g. nothing to do)
+			}
+			sub.classify(res)
+		}
+	}
+	a.viol = append(a.viol, sub.viol...)
+	a.undec = append(a.undec, sub.undec...)
+	for _, o := range sub.oks {
+		a.oks = append(a.oks, "in "+FuncKey(callee)+": "+o)
+	}
+	if n == 0 || (len(sub.viol)+len(sub.undec)+len(sub.oks) == 0) {
+		a.undecf("%s, called at %s, returns no list this rule can follow", FuncKey(callee), p.Pos(c.Pos()))
+	}
+	return true
+}
+
+func c07IsConstInt(v ssa.Value, n int64) bool {
+	c, ok := ConstInt(v)
+	return ok && c == n
+}
+
+func c07StripInt(v ssa.Value) ssa.Value {
+	for i := 0; i < 4; i++ {
+		if x, ok := v.(*ssa.ChangeType); ok {
+			v = x.X
+			continue
+		}
+		break
+	}
+	return v
+}
+
+// predIsEqValue: the predicate handed to slices.DeleteFunc returns exactly
+// `param == <a claim's Value>`. Returns "" when it does.
+func (a *c07DelArm) predIsEqValue(pred ssa.Value) string {
+	var fn *ssa.Function
+	switch x := pred.(type) {
+	case *ssa.MakeClosure:
+		fn, _ = x.Fn.(*ssa.Function)
+	case *ssa.Function:
+		fn = x
+	}
+	if fn == nil || fn.Blocks == nil || len(fn.Params) != 1 {
+		return "the predicate is not a function literal or declared function whose body can be read"
+	}
+	n := 0
+	for _, ri := range Returns(fn) {
+		if len(ri.Results) != 1 {
+			return "unexpected predicate signature"
+		}
+		bo, ok := ri.Results[0].(*ssa.BinOp)
+		if !ok || bo.Op != token.EQL {
+			return "the predicate does not return a plain `element == value` comparison"
+		}
+		match := false
+		for _, pair := range [][2]ssa.Value{{bo.X, bo.Y}, {bo.Y, bo.X}} {
+			if originValue(pair[0]) != ssa.Value(fn.Params[0]) && pair[0] != ssa.Value(fn.Params[0]) {
+				continue
+			}
+			if _, ok := c07ClaimField(pair[1], "Value"); ok || a.isValue(pair[1]) || a.isValue(originValue(pair[1])) {
+				match = true
+			}
+		}
+		if !match {
+			return "the predicate does not compare its parameter with the claim's Value"
+		}
+		n++
+	}
+	if n == 0 {
+		return "the predicate never returns"
+	}
+	return ""
+}
+
+// ---- paths through a loop
+
+func c07RmPaths(l *c07RmLoop) (paths []*c07RmPath, ok bool) {
+	ok = true
+	var cur []*ssa.BasicBlock
+	var dfs func(b *ssa.BasicBlock)
+	dfs = func(b *ssa.BasicBlock) {
+		if !ok {
+			return
+		}
+		cur = append(cur, b)
+		defer func() { cur = cur[:len(cur)-1] }()
+		done := map[*ssa.BasicBlock]bool{}
+		for _, s := range b.Succs {
+			if done[s] {
+				continue
+			}
+			done[s] = true
+			switch {
+			case s == l.head:
+				paths = append(paths, &c07RmPath{blocks: append([]*ssa.BasicBlock(nil), cur...), end: s, back: true})
+			case !l.blocks[s]:
+				paths = append(paths, &c07RmPath{blocks: append([]*ssa.BasicBlock(nil), cur...), end: s})
+			default:
+				for _, c := range cur {
+					if c == s {
+						ok = false // an inner cycle
+						return
+					}
+				}
+				dfs(s)
+			}
+			if len(paths) > 256 {
+				ok = false
+				return
+			}
+		}
+	}
+	dfs(l.head)
+	return paths, ok
+}
+
+func (pa *c07RmPath) index(b *ssa.BasicBlock) int {
+	for i, x := range pa.blocks {
+		if x == b {
+			return i
+		}
+	}
+	return -1
+}
+
+// res resolves phis of the blocks on the path (other than the header, whose
+// phis stand for the values at the start of the iteration).
+func (pa *c07RmPath) res(v ssa.Value) ssa.Value {
+	for i := 0; i < 32 && v != nil; i++ {
+		switch x := v.(type) {
+		case *ssa.ChangeType:
+			v = x.X
+			continue
+		case *ssa.Phi:
+			if pa == nil {
+				return v
+			}
+			j := pa.index(x.Block())
+			if j <= 0 {
+				return v
+			}
+			found := false
+			for k, p := range x.Block().Preds {
+				if p == pa.blocks[j-1] {
+					v, found = x.Edges[k], true
+					break
+				}
+			}
+			if found {
+				continue
+			}
+		}
+		return v
+	}
+	return v
+}
+
+// next: the value header phi ph receives when the back path is taken.
+func (pa *c07RmPath) next(ph *ssa.Phi) ssa.Value {
+	last := pa.blocks[len(pa.blocks)-1]
+	for k, p := range ph.Block().Preds {
+		if p == last {
+			return pa.res(ph.Edges[k])
+		}
+	}
+	return nil
+}
+
+// affine: v == base + off along the path (base nil: a constant).
+func (pa *c07RmPath) affine(v ssa.Value) (base ssa.Value, off int64) {
+	for i := 0; i < 32 && v != nil; i++ {
+		v = pa.res(v)
+		bo, ok := v.(*ssa.BinOp)
+		if !ok {
+			break
+		}
+		if c, ok := ConstInt(bo.Y); ok && bo.Op == token.ADD {
+			off, v = off+c, bo.X
+			continue
+		}
+		if c, ok := ConstInt(bo.Y); ok && bo.Op == token.SUB {
+			off, v = off-c, bo.X
+			continue
+		}
+		if c, ok := ConstInt(bo.X); ok && bo.Op == token.ADD {
+			off, v = off+c, bo.Y
+			continue
+		}
+		break
+	}
+	if v != nil {
+		if c, ok := v.(*ssa.Const); ok && c.Value != nil && c.Value.Kind() == constant.Int {
+			return nil, off + c.Int64()
+		}
+	}
+	return v, off
+}
+
+func (pa *c07RmPath) instrs() []ssa.Instruction {
+	var out []ssa.Instruction
+	for _, b := range pa.blocks {
+		out = append(out, b.Instrs...)
+	}
+	return out
+}
+
+// elemCmps: the comparisons `list[index] ==/!= claim.Value` decided along the path.
+func (a *c07DelArm) elemCmps(pa *c07RmPath) []c07ElemCmp {
+	var out []c07ElemCmp
+	isValue := a.isValue
+	for j, b := range pa.blocks {
+		if len(b.Succs) != 2 || b.Succs[0] == b.Succs[1] || len(b.Instrs) == 0 {
+			continue
+		}
+		ifi, ok := b.Instrs[len(b.Instrs)-1].(*ssa.If)
+		if !ok {
+			continue
+		}
+		nb := pa.end
+		if j+1 < len(pa.blocks) {
+			nb = pa.blocks[j+1]
+		}
+		val := nb == b.Succs[0]
+		cond := ifi.Cond
+		for {
+			if u, ok := cond.(*ssa.UnOp); ok && u.Op == token.NOT {
+				cond, val = u.X, !val
+				continue
+			}
+			break
+		}
+		bo, ok := cond.(*ssa.BinOp)
+		if !ok || (bo.Op != token.EQL && bo.Op != token.NEQ) {
+			continue
+		}
+		for _, pair := range [][2]ssa.Value{{bo.X, bo.Y}, {bo.Y, bo.X}} {
+			if !isValue(pair[1]) {
+				continue
+			}
+			ld, ok := originValue(pa.res(pair[0])).(*ssa.UnOp)
+			if !ok || ld.Op != token.MUL {
+				continue
+			}
+			ia, ok := ld.X.(*ssa.IndexAddr)
+			if !ok || !c07IsSliceT(ia.X.Type()) {
+				continue
+			}
+			base, off := pa.affine(ia.Index)
+			out = append(out, c07ElemCmp{list: pa.res(ia.X), elem: ld, base: base, off: off, equal: (bo.Op == token.EQL) == val})
+		}
+	}
+	return out
+}
+
+// c07RemovalAt: n is `list` with the one element at index base+off removed:
+// slices.Delete(list, i, i+1), append(list[:i], list[i+1:]...), or
+// list[:len(list)-1] after copy(list[i:], list[i+1:]) on the path.
+func c07RemovalAt(pa *c07RmPath, n ssa.Value, isList func(ssa.Value) bool) (base ssa.Value, off int64, how string, ok bool) {
+	plus1 := func(lo, hi ssa.Value) (ssa.Value, int64, bool) {
+		b1, o1 := pa.affine(lo)
+		b2, o2 := pa.affine(hi)
+		if b1 == b2 && o2 == o1+1 {
+			return b1, o1, true
+		}
+		return nil, 0, false
+	}
+	switch x := n.(type) {
+	case *ssa.Call:
+		if c07IsSlicesFunc(x.Call.StaticCallee(), "Delete") && len(x.Call.Args) == 3 && isList(pa.res(x.Call.Args[0])) {
+			if b, o, ok := plus1(x.Call.Args[1], x.Call.Args[2]); ok {
+				return b, o, "slices.Delete(list, i, i+1)", true
+			}
+		}
+		if c07Builtin(&x.Call) == "append" && len(x.Call.Args) == 2 {
+			s1, ok1 := pa.res(x.Call.Args[0]).(*ssa.Slice)
+			s2, ok2 := pa.res(x.Call.Args[1]).(*ssa.Slice)
+			if ok1 && ok2 && isList(pa.res(s1.X)) && isList(pa.res(s2.X)) && s1.High != nil && s2.Low != nil && s2.High == nil &&
+				(s1.Low == nil || c07IsConstInt(s1.Low, 0)) {
+				if b, o, ok := plus1(s1.High, s2.Low); ok {
+					return b, o, "append(list[:i], list[i+1:]...)", true
+				}
+			}
+		}
+	case *ssa.Slice:
+		if pa == nil || !isList(pa.res(x.X)) || x.High == nil || (x.Low != nil && !c07IsConstInt(x.Low, 0)) {
+			break
+		}
+		hb, ho := pa.affine(x.High)
+		lc, isCall := hb.(*ssa.Call)
+		if !isCall || ho != -1 || c07Builtin(&lc.Call) != "len" || !isList(pa.res(lc.Call.Args[0])) {
+			break
+		}
+		for _, in := range pa.instrs() {
+			c, isCall := in.(*ssa.Call)
+			if !isCall || c07Builtin(&c.Call) != "copy" {
+				continue
+			}
+			d, ok1 := pa.res(c.Call.Args[0]).(*ssa.Slice)
+			s, ok2 := pa.res(c.Call.Args[1]).(*ssa.Slice)
+			if !ok1 || !ok2 || !isList(pa.res(d.X)) || !isList(pa.res(s.X)) || d.Low == nil || s.Low == nil || d.High != nil || s.High != nil {
+				continue
+			}
+			if b, o, ok := plus1(d.Low, s.Low); ok {
+				return b, o, "copy(list[i:], list[i+1:]) then list[:len(list)-1]", true
+			}
+		}
+	}
+	return nil, 0, "", false
+}
+
+// loop decides one removal loop. Exactly one of out (a list value defined
+// inside the loop, normally its header phi) and outSlice (list[:w] taken after
+// the loop, w a header phi: in-place compaction) is set.
+func (a *c07DelArm) loop(l *c07RmLoop, out ssa.Value, outSlice *ssa.Slice) {
+	p := a.cx.p
+	h := l.head
+	var lbs []*ssa.BasicBlock
+	for b := range l.blocks {
+		lbs = append(lbs, b)
+	}
+	at := "the loop at " + p.Pos(c07BlocksPos(h.Parent(), lbs...))
+	paths, ok := c07RmPaths(l)
+	if !ok {
+		a.undecf("%s contains an inner loop (or too many paths); only single-level removal loops are modelled", at)
+		return
+	}
+	inLoop := func(v ssa.Value) bool {
+		in, ok := v.(ssa.Instruction)
+		return ok && in.Block() != nil && l.blocks[in.Block()]
+	}
+	var slicePhis, intPhis []*ssa.Phi
+	for _, in := range h.Instrs {
+		ph, ok := in.(*ssa.Phi)
+		if !ok {
+			continue
+		}
+		if c07IsSliceT(ph.Type()) {
+			slicePhis = append(slicePhis, ph)
+		} else if bt, ok := ph.Type().Underlying().(*types.Basic); ok && bt.Info()&types.IsInteger != 0 {
+			intPhis = append(intPhis, ph)
+		}
+	}
+	isHeadInt := func(v ssa.Value) *ssa.Phi {
+		for _, ph := range intPhis {
+			if v == ssa.Value(ph) {
+				return ph
+			}
+		}
+		return nil
+	}
+
+	// the element comparison fixes the list that is read and the cursor
+	var cur *ssa.Phi
+	var d int64
+	var list ssa.Value
+	for _, pa := range paths {
+		for _, c := range a.elemCmps(pa) {
+			ph := isHeadInt(c.base)
+			if ph == nil {
+				continue
+			}
+			if cur == nil {
+				cur, d, list = ph, c.off, c.list
+			} else if cur != ph || d != c.off || list != c.list {
+				a.undecf("%s compares elements at different positions or of different lists with the claim's value", at)
+				return
+			}
+		}
+	}
+	if cur == nil {
+		a.undecf("%s never compares a list element indexed by a loop counter with the claim's Value", at)
+		return
+	}
+
+	// mode
+	const (
+		modeInPlace = iota
+		modeAppend
+		modeCompact
+	)
+	mode := -1
+	var acc, wr *ssa.Phi // accumulator list phi (in-place: the list itself; append: the kept list); write cursor
+	if outSlice != nil {
+		wr = isHeadInt(c07StripInt(outSlice.High))
+		if wr == nil || wr == cur || inLoop(list) {
+			a.undecf("%s: the result list[:n] is not cut at a write counter of a loop that reads an unchanged list", at)
+			return
+		}
+		mode = modeCompact
+	} else {
+		for _, ph := range slicePhis {
+			if out == ssa.Value(ph) {
+				acc = ph
+			}
+		}
+		if acc == nil && len(slicePhis) == 1 {
+			acc = slicePhis[0] // the list leaves the loop from inside its body; the exit is judged below
+		}
+		switch {
+		case acc == nil && len(slicePhis) == 0:
+			if _, _, rhow, ok := c07RemovalAt(nil, out, func(ssa.Value) bool { return true }); ok {
+				a.violf("%s removes a single element (%s) and is then left, the list is not carried round the loop: only the first occurrence of the claim's value goes, further occurrences stay", at, rhow)
+				return
+			}
+			a.undecf("%s produces a list that is not carried round the loop", at)
+			return
+		case acc == nil:
+			a.undecf("%s: cannot tell which loop-carried list is the result", at)
+			return
+		case list == ssa.Value(acc):
+			mode = modeInPlace
+		case !inLoop(list):
+			mode = modeAppend
+		default:
+			a.undecf("%s reads a list that changes in the loop but is not the result", at)
+			return
+		}
+	}
+
+	type step struct {
+		n   int64
+		pos token.Pos
+	}
+	var keepSteps, rmSteps []step
+	how := ""
+	for _, pa := range paths {
+		var eq, ne bool
+		var elem ssa.Value
+		for _, c := range a.elemCmps(pa) {
+			if c.base == ssa.Value(cur) && c.off == d && c.list == list {
+				elem = c.elem
+				if c.equal {
+					eq = true
+				} else {
+					ne = true
+				}
+			}
+		}
+		last := pa.blocks[len(pa.blocks)-1]
+		lastPos := c07BlocksPos(h.Parent(), last)
+		if len(pa.blocks) > 1 && lastPos == h.Parent().Pos() {
+			lastPos = c07BlocksPos(h.Parent(), pa.blocks[1:]...)
+		}
+		if !pa.back {
+			if len(pa.blocks) == 1 {
+				continue // left at the header: judged with the loop bound below
+			}
+			if n := len(pa.end.Instrs); n > 0 {
+				if _, isPanic := pa.end.Instrs[n-1].(*ssa.Panic); isPanic {
+					continue
+				}
+			}
+			if eq {
+				a.violf("%s is left (break/return near %s) on the path where an element equal to the claim's value was found: the elements after it are never examined, later occurrences stay (or the values after it are lost)", at, p.Pos(lastPos))
+			} else {
+				a.undecf("%s can be left from inside its body near %s before every element was examined", at, p.Pos(lastPos))
+			}
+			continue
+		}
+		nb, noff := pa.affine(pa.next(cur))
+		if nb != ssa.Value(cur) {
+			a.undecf("%s: on the path through %s the loop counter is not advanced by a constant", at, p.Pos(lastPos))
+			continue
+		}
+		kept := func() bool { // an element stays in the list on this path
+			switch {
+			case ne && !eq:
+				return true
+			case eq:
+				a.violf("%s keeps an element on the path (through %s) where it is known EQUAL to the claim's value", at, p.Pos(lastPos))
+			default:
+				a.undecf("%s keeps an element on the path through %s without having compared it with the claim's value", at, p.Pos(lastPos))
+			}
+			return false
+		}
+		dropped := func() bool {
+			switch {
+			case eq && !ne:
+				return true
+			case ne:
+				a.violf("%s drops an element on the path (through %s) where it is known to DIFFER from the claim's value", at, p.Pos(lastPos))
+			default:
+				a.undecf("%s drops an element on the path through %s without having compared it with the claim's value", at, p.Pos(lastPos))
+			}
+			return false
+		}
+		switch mode {
+		case modeInPlace:
+			na := pa.next(acc)
+			if na == ssa.Value(acc) {
+				if kept() {
+					keepSteps = append(keepSteps, step{noff, lastPos})
+				}
+				continue
+			}
+			rb, roff, rhow, ok := c07RemovalAt(pa, na, func(v ssa.Value) bool { return v == ssa.Value(acc) })
+			if !ok {
+				a.undecf("%s: on the path through %s the list becomes %s, which is not a recognised removal of one element (slices.Delete(l,i,i+1), append(l[:i], l[i+1:]...), copy-down + re-slice)", at, p.Pos(lastPos), na.String())
+				continue
+			}
+			if rb != ssa.Value(cur) || roff != d {
+				a.undecf("%s removes an element at another position than the one it compared (path through %s)", at, p.Pos(lastPos))
+				continue
+			}
+			if dropped() {
+				how = rhow
+				rmSteps = append(rmSteps, step{noff, lastPos})
+			}
+		case modeAppend:
+			na := pa.next(acc)
+			if noff != 1 {
+				a.undecf("%s: the read counter is not advanced by exactly one on the path through %s", at, p.Pos(lastPos))
+				continue
+			}
+			if na == ssa.Value(acc) {
+				dropped()
+				continue
+			}
+			c, isCall := na.(*ssa.Call)
+			if !isCall || c07Builtin(&c.Call) != "append" || len(c.Call.Args) != 2 || pa.res(c.Call.Args[0]) != ssa.Value(acc) {
+				a.undecf("%s: on the path through %s the kept list becomes %s, not append(kept, element)", at, p.Pos(lastPos), na.String())
+				continue
+			}
+			ev := c07SingleAppended(pa.res(c.Call.Args[1]))
+			if ev == nil || elem == nil || pa.res(ev) != elem {
+				a.undecf("%s: what is appended to the kept list on the path through %s is not the one element that was compared", at, p.Pos(lastPos))
+				continue
+			}
+			if kept() {
+				how = "filter: append(kept, element) only on the `element != claim.Value` edge"
+			}
+		case modeCompact:
+			if noff != 1 {
+				a.undecf("%s: the read counter is not advanced by exactly one on the path through %s", at, p.Pos(lastPos))
+				continue
+			}
+			wb, woff := pa.affine(pa.next(wr))
+			var stores []*ssa.Store
+			bad := false
+			for _, in := range pa.instrs() {
+				st, ok := in.(*ssa.Store)
+				if !ok {
+					continue
+				}
+				ia, ok := st.Addr.(*ssa.IndexAddr)
+				if !ok || !c07IsSliceT(ia.X.Type()) {
+					continue
+				}
+				ib, ioff := pa.affine(ia.Index)
+				if pa.res(ia.X) != pa.res(outSlice.X) || ib != ssa.Value(wr) || ioff != 0 || elem == nil || pa.res(st.Val) != elem {
+					bad = true
+				}
+				stores = append(stores, st)
+			}
+			switch {
+			case bad || wb != ssa.Value(wr):
+				a.undecf("%s: on the path through %s a slice element is written that is not result[write counter] = compared element, or the write counter is not advanced by a constant", at, p.Pos(lastPos))
+			case woff == 0 && len(stores) == 0:
+				dropped()
+			case woff == 1 && len(stores) == 1:
+				if kept() {
+					how = "filter by in-place compaction: list[w] = element; w++ only on the `element != claim.Value` edge, result list[:w]"
+				}
+			default:
+				a.undecf("%s: on the path through %s the write counter moves by %d with %d element store(s)", at, p.Pos(lastPos), woff, len(stores))
+			}
+		}
+	}
+	if len(a.viol) > 0 || len(a.undec) > 0 {
+		return
+	}
+
+	// direction and the step taken after a removal
+	dir := int64(1)
+	if mode == modeInPlace {
+		if len(keepSteps) == 0 || len(rmSteps) == 0 {
+			a.undecf("%s has no path that keeps an element or none that removes one", at)
+			return
+		}
+		dir = keepSteps[0].n
+		for _, s := range keepSteps {
+			if s.n != dir || (dir != 1 && dir != -1) {
+				a.undecf("%s: the counter does not move by one element (+1 or -1) on every path that keeps the element", at)
+				return
+			}
+		}
+		for _, s := range rmSteps {
+			switch {
+			case dir == 1 && s.n == 0, dir == -1 && s.n == -1:
+			case dir == 1 && s.n == 1:
+				a.violf("removal loop skips the element that slides into the removed slot: in %s, after the element at index i was removed (%s, path through %s) the counter still advances to i+1, so the element that moved into slot i is never compared; of adjacent equal values only every other one is removed", at, how, p.Pos(s.pos))
+			default:
+				a.undecf("%s: after a removal the counter moves by %d", at, s.n)
+			}
+		}
+		if len(a.viol) > 0 || len(a.undec) > 0 {
+			return
+		}
+	}
+
+	// loop bound and initial values: every element is visited
+	var ifi *ssa.If
+	if n := len(h.Instrs); n > 0 {
+		ifi, _ = h.Instrs[n-1].(*ssa.If)
+	}
+	hp := &c07RmPath{blocks: []*ssa.BasicBlock{h}}
+	boundOK := false
+	if ifi != nil && len(h.Succs) == 2 && l.blocks[h.Succs[0]] && !l.blocks[h.Succs[1]] {
+		if bo, ok := ifi.Cond.(*ssa.BinOp); ok {
+			x, y, op := bo.X, bo.Y, bo.Op
+			if yb, _ := hp.affine(y); yb == ssa.Value(cur) { // counter on the right: mirror
+				x, y = y, x
+				op = map[token.Token]token.Token{token.LSS: token.GTR, token.GTR: token.LSS, token.LEQ: token.GEQ, token.GEQ: token.LEQ}[op]
+			}
+			xb, xo := hp.affine(x)
+			if xb == ssa.Value(cur) {
+				switch {
+				case dir == 1 && op == token.LSS && xo == d:
+					if lc, ok := originValue(y).(*ssa.Call); ok && c07Builtin(&lc.Call) == "len" {
+						arg := hp.res(lc.Call.Args[0])
+						boundOK = arg == list || (mode != modeInPlace && originValue(arg) == originValue(list))
+					}
+				case dir == -1:
+					// position examined = counter + d >= 0, written as counter+xo >= yo or counter+xo > yo
+					yb, yo := hp.affine(y)
+					boundOK = yb == nil && ((op == token.GEQ && xo-yo == d) || (op == token.GTR && xo-yo == d+1))
+				}
+			}
+		}
+	}
+	if !boundOK {
+		a.undecf("%s: the loop condition is not `index < len(list)` (or `index >= 0` when counting down) on the list being filtered", at)
+		return
+	}
+	for k, pr := range h.Preds {
+		if l.blocks[pr] {
+			continue
+		}
+		ib, ioff := hp.affine(cur.Edges[k])
+		switch {
+		case dir == 1 && ib == nil && ioff+d == 0:
+		case dir == -1 && ioff+d == -1 && c07IsLenOf(ib, acc.Edges[k]):
+		default:
+			a.undecf("%s does not start at the first element (last element when counting down)", at)
+			return
+		}
+		if mode == modeAppend && !c07EmptyList(c07StripList(acc.Edges[k])) {
+			a.undecf("%s: the kept list does not start empty", at)
+			return
+		}
+		if mode == modeCompact {
+			if wb, wo := hp.affine(wr.Edges[k]); wb != nil || wo != 0 {
+				a.undecf("%s: the write counter does not start at 0", at)
+				return
+			}
+		}
+	}
+	switch mode {
+	case modeInPlace:
+		if dir == 1 {
+			a.oks = append(a.oks, fmt.Sprintf("in-place removal loop (%s): after a removal at index i the counter stays at i, otherwise i+1; bound len(list) re-read each iteration; left only at the bound", how))
+		} else {
+			a.oks = append(a.oks, fmt.Sprintf("in-place removal loop counting down (%s): the elements that slide were already examined; left only at the bound", how))
+		}
+	default:
+		a.oks = append(a.oks, how+"; every element read exactly once, loop left only at len(list)")
+	}
+}
+
+func c07IsLenOf(v, list ssa.Value) bool {
+	c, ok := v.(*ssa.Call)
+	if !ok || c07Builtin(&c.Call) != "len" {
+		return false
+	}
+	return c.Call.Args[0] == list || originValue(c.Call.Args[0]) == originValue(list)
+}
+
+// c07SingleAppended: s is the variadic slice of exactly one element; returns it.
+func c07SingleAppended(s ssa.Value) ssa.Value {
+	sl, ok := s.(*ssa.Slice)
+	if !ok || sl.Low != nil || sl.High != nil {
+		return nil
+	}
+	al, ok := sl.X.(*ssa.Alloc)
+	if !ok {
+		return nil
+	}
+	arr, ok := c07Deref(al.Type()).Underlying().(*types.Array)
+	if !ok || arr.Len() != 1 || al.Referrers() == nil {
+		return nil
+	}
+	var val ssa.Value
+	for _, rf := range *al.Referrers() {
+		ia, ok := rf.(*ssa.IndexAddr)
+		if !ok || ia.Referrers() == nil {
+			continue
+		}
+		for _, u := range *ia.Referrers() {
+			if st, ok := u.(*ssa.Store); ok && st.Addr == ssa.Value(ia) {
+				if val != nil {
+					return nil
+				}
+				val = st.Val
+			}
+		}
+	}
+	return val
+}
+
+func c07BlockPos(b *ssa.BasicBlock) token.Pos { return c07BlocksPos(b.Parent(), b) }
+
+// c07BlocksPos: the smallest valid source position of an instruction in the
+// blocks (for the human-readable site only).
+func c07BlocksPos(fn *ssa.Function, blocks ...*ssa.BasicBlock) token.Pos {
+	best := token.NoPos
+	for _, b := range blocks {
+		for _, in := range b.Instrs {
+			if _, isPhi := in.(*ssa.Phi); isPhi {
+				continue
+			}
+			if ps := in.Pos(); ps.IsValid() && (!best.IsValid() || ps < best) {
+				best = ps
+			}
+		}
+	}
+	if !best.IsValid() {
+		return fn.Pos()
+	}
+	return best
 }
